@@ -35,3 +35,32 @@ Theorem C18_count_roundtrip : forall w st,
   end.
 Proof. exact count_roundtrip. Qed.
 Print Assumptions C18_count_roundtrip.
+
+(** Layer R's part: the count interfaces the runtime model uses (coq/R/Count.v).  The packed CountAndState word
+    IS the (count, state) pair for every operation of rc/count.rs (inc / dec / set_state / is_prep / is_zombie),
+    used identically by rc/actorrc_packed.rs and rc/actorrc_std.rs; the hand-rolled MinRc count (rc/minrc.rs; the
+    no-unsafe builds use std::rc::Rc) counts like Rc and frees exactly on 1 -> 0. *)
+From Stk Require Import R.Count.
+
+Theorem C18_count_interface :
+  (forall v, 0 <= v -> pack (cnt v) (sta v) = v) /\
+  (forall c st, 0 <= st < 4 -> cnt (pack c st) = c /\ sta (pack c st) = st) /\
+  count_new = Some (pack 0 STATE_PREP) /\
+  (forall c st, 0 <= c < CMAX -> 0 <= st < 4 -> count_inc (pack c st) = Some (pack (c + 1) st)) /\
+  (forall c st, 0 < c < CMAX -> 0 <= st < 4 -> count_dec (pack c st) = Some (pack (c - 1) st, c =? 1)) /\
+  (forall st, 0 <= st < 4 -> count_dec (pack 0 st) = Some (pack 0 st, false)) /\
+  (forall c st st', 0 <= c <= CMAX -> 0 <= st < 4 -> 0 <= st' < 4 -> count_set_state (pack c st) st' = Some (pack c st')) /\
+  (forall c st, 0 <= c <= CMAX -> 0 <= st < 4 -> count_is_prep (pack c st) = Some (st =? 0)) /\
+  (forall c st, 0 <= c <= CMAX -> 0 <= st < 4 -> count_is_zombie (pack c st) = Some (st =? 2)).
+Proof.
+  repeat split; intros; auto using pack_unpack, count_inc_spec, count_dec_spec, count_dec_zero, count_set_state_spec,
+    is_prep_spec, is_zombie_spec; try (apply unpack_pack; auto).
+Qed.
+Print Assumptions C18_count_interface.
+
+Theorem C18_minrc_interface :
+  MINRC_INIT = 1 /\
+  (forall c, 0 <= c < 18446744073709551615 -> minrc_clone c = Some (c + 1)) /\
+  (forall c, 0 <= c < 18446744073709551615 -> minrc_drop c = Some (Z.max 0 (c - 1), c =? 1)).
+Proof. split; [reflexivity|]. split; [exact minrc_clone_spec | exact minrc_drop_spec]. Qed.
+Print Assumptions C18_minrc_interface.
